@@ -246,6 +246,72 @@ OBJECTS: Dict[str, Tuple[Sp, str]] = {
     "tuple(S2,int)": (tup(S2, INT), ""),
 }
 
+# ------------------------------------------------------------------ serialization pool
+SER_SRC = """
+def is_neg(x):
+    return x is not None and x < 0
+"""
+SM = obj(
+    "Sm",
+    F("a", INT),
+    F("t", opt(STR), default=V("None")),
+    body="@serialized\ndef double(self) -> int:\n    return self.a * 2\n"
+    "@serialized('negAlias')\n@property\ndef neg(self) -> Optional[int]:\n    return None if self.a == 0 else -self.a\n"
+    "@serialized\ndef maybe(self) -> Union[int, UndefinedType]:\n    return Undefined if self.a > 5 else self.a",
+    smethods=(
+        ("double", "double", INT, "method"),
+        ("neg", "negAlias", opt(INT), "property"),
+        ("maybe", "maybe", undef(INT), "method"),
+    ),
+)
+SK = obj(
+    "Sk",
+    F("a", INT, default=V("0"), skip=("serialization_default",)),
+    F("b", opt(INT), default=V("None"), skip=("serialization_if:is_neg",)),
+    F("c", opt(STR), default=V("None"), none_as_undefined=True),
+    F("d", undef(INT), default=V("Undefined")),
+    F("e", INT, default=V("5"), skip=("serialization",)),
+)
+SKD = obj(
+    "Skd",
+    F("n", opt(INT), default=V("None"), skip=("serialization_default",)),
+    F("l", lst(INT), default=Fy("list"), skip=("serialization_default",)),
+    F("s", STR, default=V("'d'"), alias="S"),
+    F("u", opt(undef(INT)) if False else undef(opt(INT)), default=V("Undefined")),
+)
+FS = obj(
+    "Fs",
+    F("a", INT),
+    F("b", opt(INT), default=V("None")),
+    F("c", STR, default=V("'c'"), default_as_set=True),
+    deco=("with_fields_set",),
+    fields_set=True,
+)
+TDA = obj(
+    "TDA",
+    F("a", INT, alias="A1"),
+    F("n", opt(INT)),
+    F("u", opt(STR), none_as_undefined=True),
+    kind="typeddict",
+)
+SER_OBJECTS: Dict[str, Tuple[Sp, str]] = {
+    "TDA": (TDA, ""),
+    "enum_struct": (enum("Est", 0, (1, 2), "s"), ""),
+    "list(enum_struct)": (lst(enum("Est", 0, (1, 2), "s")), ""),
+    "Sm": (SM, ""),
+    "Sk": (SK, SER_SRC),
+    "Skd": (SKD, ""),
+    "Fs": (FS, ""),
+    "list(Sm)": (lst(SM), ""),
+    "opt(Sk)": (opt(SK), SER_SRC),
+    "u(S2,FL,none)": (union(S2, FL, NONE), ""),
+    "u(int,S2)": (union(INT, S2), ""),
+    "u(list(int),tuple(int,str))": (union(lst(INT), tup(INT, STR)), ""),
+    "map(enum)": (mp(enum("E", 1, "x")), ""),
+    "enum_mixed": (enum("Em", 0, "z", 1.5), ""),
+    "set(int)": (st(INT), ""),
+}
+
 QUICK_WRAP = ["int", "float", "str_len", "lit_mix", "enum", "nt", "any"]
 
 
@@ -277,7 +343,15 @@ def _data_pool() -> Dict[str, Tuple[Sp, str, str]]:
     return out
 
 
-POOLS = {"data": _data_pool}
+@functools.lru_cache()
+def _ser_pool():
+    out = dict(_data_pool())
+    for n, (s, src) in SER_OBJECTS.items():
+        out[n] = (s, src, "quick")
+    return out
+
+
+POOLS = {"data": _data_pool, "ser": _ser_pool}
 
 
 def get(pool: str, pid: str) -> Tuple[Sp, str]:
